@@ -145,12 +145,13 @@ def extract(repo=None):
 
     # --- add_layers: surface layer names
     fn = _find_method(cls, 'add_layers')
-    surf = None
-    for tgt, val in _assignments(fn):
-        if isinstance(tgt, ast.Name) and tgt.id == 'surfacelayername':
-            surf = _indexed_by_convention(val, str)
-    if surf is None:
-        _fail('add_layers does not assign surfacelayername')
+    # the surface layer name: the one local assigned from a list of strings indexed by the convention
+    # (located structurally, so that renaming the variable does not disturb the translator)
+    cands = [val for tgt, val in _assignments(fn)
+             if isinstance(tgt, ast.Name) and isinstance(val, ast.Subscript) and _is_self_attr(val.slice, 'convention')]
+    if len(cands) != 1:
+        _fail('add_layers: expected exactly one `name = [...][self.convention]`, found %d' % len(cands))
+    surf = _indexed_by_convention(cands[0], str)
     out['surface_layer_name'] = surf
     for k in ('atmosphere_column_name', 'layername_length', 'surface_layer_name'):
         if len(out[k]) != nconv:
